@@ -181,6 +181,60 @@ def lattice(seed, tier, only=None):
     return res
 
 
+def ladder(seed, tier):
+    """C04 / C10 (B), size ladder: the lattice above uses 9 samples; here every estimator is fitted at larger, awkward sizes --
+    a short remainder batch of a large batch size, a batch count that does not divide n, more than 256 samples, more features
+    than a block of rows, more clusters -- with the same post-conditions and, in addition, the exact number of optimiser steps
+    max_iter * ceil(n / batch_size)."""
+    from sklearn.neural_network import _stochastic_optimizers as SO
+    rs = np.random.RandomState(seed + 5)
+    sizes = [(41, 4, 20), (90, 3, 25), (300, 3, None), (300, 3, 128), (33, 12, 7), (70, 5, None)]
+    if tier != "quick":
+        sizes += [(130, 5, 64), (600, 2, 256), (83, 6, 40)]
+    res = {}
+    for name, cls in estimators().items():
+        import inspect
+        params = inspect.signature(cls.__init__).parameters
+        fails, nfit = [], 0
+        for n, d, bs in sizes:
+            X = rs.normal(size=(n, d)) + 3.0 * rs.randint(0, 3, size=(n, 1))
+            kw = {}
+            if name == "Kauri":
+                kw.update(max_clusters=6, random_state=seed)
+                if bs is not None:
+                    continue
+            else:
+                kw.update(n_clusters=4, max_iter=2, random_state=seed, learning_rate=0.01)
+                if "batch_size" in params:
+                    kw["batch_size"] = bs
+                elif bs is not None:
+                    continue
+            if name.endswith("Wasserstein") and n > 150:
+                continue            # the exact transport solver on a few hundred samples is slow; covered at the smaller sizes
+            nfit += 1
+            steps = []
+            orig = SO.BaseOptimizer.update_params
+
+            def counting(self_, p, g, _o=orig):
+                steps.append(1)
+                return _o(self_, p, g)
+            SO.BaseOptimizer.update_params = counting
+            try:
+                bad = check_fit(name, cls(**kw), (X, None), kw)
+            except Exception as e:
+                bad = ["raised " + repr(e)[:160]]
+            finally:
+                SO.BaseOptimizer.update_params = orig
+            if name != "Kauri" and not name.startswith("Categorical") and "batch_size" in params and not bad:
+                want = 2 * (-(-n // (bs or n)))
+                if len(steps) != want:
+                    bad.append(f"{len(steps)} optimiser steps, expected max_iter * ceil(n / batch_size) = {want}")
+            if bad:
+                fails.append({"n": n, "d": d, "config": {k: v for k, v in kw.items() if k != "random_state"}, "violations": bad})
+        res[name] = (nfit, fails)
+    return res
+
+
 def degenerate(seed, tier):
     """C17: legal but awkward inputs; every learned parameter, probability and score must be finite."""
     rs = np.random.RandomState(seed)
